@@ -27,10 +27,22 @@ COVERAGE_RUNS = ('orders-1d', 'neighbors', 'couplings-1d', 'helical', 'irregular
 
 BASE = dict(Classes=set(), MaxL=3, MaxLx=2, MaxLy=2, NLegs={3}, MaxN=12, MaxShift=1, BcMode='all',
             BcMpsSet={'finite', 'infinite'}, OrderMode='basic', PermMults={7}, Queries=set(), DxCap=4, MultiMod=7,
-            MultiRes=0, BFMaxN=16, MaxRemove=1, MaxAdd=1, IrrMod=1, IrrRes=0)
+            MultiRes=0, BFMaxN=16, MaxRemove=1, MaxAdd=1, IrrMod=1, IrrRes=0, NLegSpacing='squeezed')
 ALLQ = {'index', 'couplings', 'multi', 'neighbors', 'values'}
 REG1D = {'Chain', 'Ladder', 'NLegLadder'}
 FMT = {'finite', 'infinite', 'segment'}
+
+
+def nleg_spacing():
+    """Which of the two NLegLadder geometries of the spec the implementation has (projection of
+    unit_cell_positions): legs at y = u/(N-1) ('squeezed') or at y = u ('unit')."""
+    from tenpy.models.lattice import NLegLadder
+    y = float(NLegLadder(2, 3, hl.the_site()).unit_cell_positions[1][1])
+    if abs(y - 1.) < 1e-12:
+        return 'unit'
+    if abs(y - 0.5) < 1e-12:
+        return 'squeezed'
+    raise core.MachineryError('NLegLadder geometry is neither of the two variants of the spec: y_1 = %r' % y)
 
 
 def groups(tier, seed):
@@ -42,7 +54,7 @@ def groups(tier, seed):
 
     def add(name, **kw):
         c = dict(BASE)
-        c.update(PermMults=pm)
+        c.update(PermMults=pm, NLegSpacing=nleg_spacing())
         c.update(kw)
         c['MultiRes'] = seed % c['MultiMod']
         c['IrrRes'] = seed % c['IrrMod']
@@ -51,19 +63,19 @@ def groups(tier, seed):
         # every ordering (named, all ('standard', snake, priority), grouped, permutations): index maps, reshaping
         add('orders-1d', Classes=REG1D, MaxL=4, MaxN=12, BcMode='periodic', OrderMode='all', PermMults=pm2,
             Queries={'index', 'values'}, BcMpsSet=FMT)
-        add('orders-2d', Classes={'Square', 'Honeycomb', 'Kagome', 'General', 'Cubic', 'Multi'}, MaxLx=3, MaxLy=3, MaxN=18,
+        add('orders-2d', Classes={'Square', 'Honeycomb', 'Kagome', 'General', 'Cubic', 'Multi'}, MaxLx=3, MaxLy=3, MaxN=12,
             BcMode='periodic', OrderMode='all', PermMults=pm2, Queries={'index', 'values'})
         # neighbour classes of every class
         add('neighbors', Classes=REG1D | {'Square', 'Triangular', 'Honeycomb', 'Kagome', 'Multi'}, MaxL=2, MaxLx=2, MaxLy=1,
             MaxN=12, MaxShift=0, BcMpsSet={'finite'}, PermMults=set(), Queries={'neighbors', 'index'})
         # every boundary condition x bc_MPS x (u1, u2, dx): couplings
         add('couplings-1d', Classes=REG1D, MaxL=4, MaxN=12, Queries=ALLQ, BcMpsSet=FMT)
-        add('couplings-square', Classes={'Square'}, MaxLx=3, MaxLy=3, MaxN=9, Queries=ALLQ, MultiMod=23, BcMpsSet=FMT)
-        add('couplings-cell', Classes={'Honeycomb', 'Kagome', 'General'}, MaxLx=2, MaxLy=2, MaxN=8, Queries=ALLQ, MultiMod=61,
+        add('couplings-square', Classes={'Square'}, MaxLx=3, MaxLy=3, MaxN=9, Queries=ALLQ, MultiMod=47)
+        add('couplings-cell', Classes={'Honeycomb', 'Kagome', 'General'}, MaxLx=2, MaxLy=2, MaxN=6, Queries=ALLQ, MultiMod=151,
             PermMults=set())
-        add('couplings-cubic', Classes={'Cubic'}, MaxN=4, MaxShift=0, Queries=ALLQ, MultiMod=101, PermMults=set())
-        add('multispecies', Classes={'Multi'}, MaxL=3, MaxN=8, Queries=ALLQ - {'multi'}, DxCap=1, PermMults=set())
-        add('irregular', Classes={'Irregular'}, MaxL=3, MaxN=6, Queries=ALLQ, DxCap=2, MultiMod=61, IrrMod=61, PermMults=set())
+        add('couplings-cubic', Classes={'Cubic'}, MaxN=4, MaxShift=0, Queries=ALLQ, MultiMod=401, PermMults=set())
+        add('multispecies', Classes={'Multi'}, MaxL=3, MaxN=6, Queries=ALLQ - {'multi'}, DxCap=1, PermMults=set())
+        add('irregular', Classes={'Irregular'}, MaxL=3, MaxN=6, Queries=ALLQ, DxCap=2, MultiMod=61, IrrMod=101, PermMults=set())
         add('helical', Classes={'Helical'}, MaxN=12, Queries=ALLQ, MultiMod=61)
     else:
         add('orders-1d', Classes=REG1D, MaxL=6, NLegs={3, 4}, MaxN=24, BcMode='periodic', OrderMode='all', PermMults=pm2,
